@@ -7,6 +7,7 @@ SEED_BUILD = 1234      # weights / NAS parameters of the models
 SEED_RUN = 4321        # global RNG at the start of every op sequence
 SEED_PROBE = 99        # RNG of every probe forward (on a deep copy)
 OBSERVERS = ('export', 'export_nobn', 'summary', 'cost', 'get_cost:a', 'get_cost:b')
+KINDS = ('bn', 'drop', 'sampler', 'other')
 SPECS = ('single_a', 'single_b', 'dict')
 _T = {}
 
@@ -28,8 +29,35 @@ def specs_for(method):
     return {'single_a': a, 'single_b': b, 'dict': {'a': a, 'b': b}}
 
 
+def kind(mod):
+    """class of a module of the seed for the purpose of flag flipping (None: container / wrapper)"""
+    torch, nn = T()
+    if isinstance(mod, nn.modules.batchnorm._BatchNorm):
+        return 'bn'
+    if isinstance(mod, nn.Dropout):
+        return 'drop'
+    if hasattr(mod, 'theta_alpha') and hasattr(mod, 'alpha'):
+        return 'sampler'
+    if not list(mod.children()):
+        return 'other'
+    return None
+
+
+def sub_modules(m, cfg):
+    """the sub-set S: every module of the seed whose kind is listed in cfg['sub'] (only its own flag is concerned)"""
+    return [mod for n, mod in m.seed.named_modules() if n and kind(mod) in cfg.get('sub', ())]
+
+
 def build(cfg):
-    """cfg = dict(method, full_cost, train, gumbel, spec0) -> (wrapper, x)"""
+    """cfg = dict(method, full_cost, train, gumbel, spec0, sub, mixed) -> (wrapper, x)"""
+    m, x = _build(cfg)
+    if cfg.get('mixed'):
+        for mod in sub_modules(m, cfg):
+            mod.training = not cfg['train']        # frozen BatchNorm etc. / the opposite in eval mode
+    return m, x
+
+
+def _build(cfg):
     torch, nn = T()
     method = cfg['method']
     torch.manual_seed(SEED_BUILD)
@@ -134,12 +162,12 @@ def thetas(m):
     return out
 
 
-def flags(m):
+def flags(m, cfg):
     fl = [(n, mod.training) for n, mod in m.named_modules()]
-    wrapper = m.training
-    seed = m.seed.training
-    leaves = [t for n, t in fl if n not in ('', 'seed')]
-    return wrapper, seed, leaves, fl
+    sub = {id(mod) for mod in sub_modules(m, cfg)}
+    rest = [mod.training for n, mod in m.seed.named_modules() if n and id(mod) not in sub]
+    subf = [mod.training for n, mod in m.seed.named_modules() if n and id(mod) in sub]
+    return m.training, m.seed.training, rest, subf, fl
 
 
 def polluted(m):
@@ -151,11 +179,12 @@ def polluted(m):
 
 
 def cost_probe(m):
-    """every cost value obtainable under the current specification (exceptions are observations)"""
+    """every cost value obtainable under the current specification (exceptions are observations); each metric is
+    read FIRST on its own copy of the model, so that a value cannot depend on which metric the probe read before"""
     out = {}
-    for nm, f in (('cost', lambda: m.cost), ('a', lambda: m.get_cost('a')), ('b', lambda: m.get_cost('b'))):
+    for nm, f in (('cost', lambda c: c.cost), ('a', lambda c: c.get_cost('a')), ('b', lambda c: c.get_cost('b'))):
         try:
-            out[nm] = float(f()).hex()
+            out[nm] = float(f(clone(m))).hex()
         except Exception as ex:
             out[nm] = 'EXC:' + type(ex).__name__
     return out
@@ -184,16 +213,17 @@ def clone(m):
     return copy.deepcopy(m, memo)
 
 
-def fingerprint(m, x, deep=True):
+def fingerprint(m, x, deep=True, cfg=None):
     """live part: read-only attribute reads.  probe part: on a deep copy, global RNG saved/restored."""
     torch, _ = T()
     sd = m.state_dict()
     pnames = {k for k, _ in m.named_parameters(remove_duplicate=False)}   # shared quantizers appear under every alias
-    w, s, lv, fl = flags(m)
+    w, s, lv, sv, fl = flags(m, cfg or {})
     fp = {
         'params': hj([(k, th(v)) for k, v in sd.items() if k in pnames]),
         'buffers': hj([(k, th(v)) for k, v in sd.items() if k not in pnames]),
         'train_wrapper': w, 'train_seed': s, 'train_leaves_all': all(lv), 'train_leaves_any': any(lv),
+        'train_sub_all': all(sv) if sv else None, 'train_sub_any': any(sv) if sv else None,
         'flags': hj(fl),
         'theta': hj(thetas(m)),
         'rng': rng_hash(),
@@ -203,8 +233,9 @@ def fingerprint(m, x, deep=True):
     if deep:
         saved = torch.random.get_rng_state()
         try:
+            fp['costs'] = cost_probe(m)
+            fp['cost'] = hj(fp['costs'])
             c = clone(m)
-            fp['cost'] = hj(cost_probe(c))
             fp['summary'] = hj(plain(c.summary()))
             try:
                 fp['export'] = struct_hash(c.export())
@@ -217,6 +248,9 @@ def fingerprint(m, x, deep=True):
         finally:
             torch.random.set_rng_state(saved)
     return fp
+
+
+CUR = {'cfg': {}}      # configuration of the history being run (flip_sub needs the sub-set)
 
 
 def apply_op(m, x, op, method):
@@ -235,6 +269,10 @@ def apply_op(m, x, op, method):
             return float(m.get_cost(op.split(':')[1])).hex()
         if op.startswith('set_spec:'):
             m.cost_specification = specs_for(method)[op.split(':')[1]]
+            return 'ok'
+        if op == 'flip_sub':
+            for mod in sub_modules(m, CUR['cfg']):
+                mod.training = not mod.training
             return 'ok'
         if op == 'forward':
             with torch.no_grad():
@@ -264,15 +302,16 @@ def apply_op(m, x, op, method):
 def run_sequence(cfg, ops, deep=True):
     """-> list of records: fingerprint before the first op, then (op, observation, fingerprint after) per step"""
     torch, _ = T()
+    CUR['cfg'] = cfg
     m, x = build(cfg)
     torch.manual_seed(SEED_RUN)
     for op in cfg.get('prefix', ()):
         apply_op(m, x, op, cfg['method'])
-    fps = [fingerprint(m, x, deep)]
+    fps = [fingerprint(m, x, deep, cfg)]
     obs = []
     for op in ops:
         obs.append(apply_op(m, x, op, cfg['method']))
-        fps.append(fingerprint(m, x, deep))
+        fps.append(fingerprint(m, x, deep, cfg))
     return {'obs': obs, 'fps': fps}
 
 
@@ -282,13 +321,15 @@ def dfs(cfg, alphabet, depth, first_ops=None):
     probes of the fingerprint work on copies).  -> [(path, obs of the last op, fp after it)], root first"""
     torch, _ = T()
 
+    CUR['cfg'] = cfg
+
     def run(path):
         m, x = build(cfg)
         torch.manual_seed(SEED_RUN)
         ob = None
         for op in tuple(cfg.get('prefix', ())) + path:
             ob = apply_op(m, x, op, cfg['method'])
-        return (path, ob if path else None, fingerprint(m, x))
+        return (path, ob if path else None, fingerprint(m, x, True, cfg))
     out = [run(())]
 
     def visit(path):
